@@ -15,17 +15,19 @@ LEVEL = "model_checking"
 
 # which TraceStore checks decide which property
 PROP_CHECKS = {
-    "C03": ["C03_RawRefs", "C03_RawLogs", "C03_SeekRef", "C03_SeekLog", "C03_RefView", "C03_LogView", "C10_Readable"],
+    "C03": ["C03_RawRefs", "C03_RawLogs", "C03_SeekRef", "C03_SeekLog", "C03_RefView", "C03_LogView", "C03_StableResults", "C10_Readable"],
     "C07": ["C07_RefView", "C07_LogView", "C07_CompactedTables", "C07_StackAfterCompact", "C07_SpecViewPreserved", "C17_AutoCompactRange",
             "C04_CompactResult", "C10_Readable"],
     "C09": ["C09_StaleAddMustFail", "C09_DirUnchanged", "C09_StaleCompactNoop", "C09_UpToDate", "C09_NextIndex", "C09_RefView", "C09_LogView",
             "C04_AddResult", "C04_StackAfterAdd"],
     "C11": ["C11_RefsFor"],
     "C12": ["C12_AcceptIffLegal", "C12_NoConflict", "C12_RefView"],
+    "C16": ["C16_SeqNoLockNoTemp", "C16_SeqNoOrphanTable", "C10_Readable", "C04_CompactResult"],
     "C13": ["C13_RefView", "C13_LogView", "C13_SpecExpiryExact", "C07_CompactedTables", "C07_StackAfterCompact", "C04_CompactResult"],
 }
 
 VOL = {"quick": 300, "thorough": 6000}
+VOLP = {"C16": {"quick": 200, "thorough": 4000}}
 
 
 def seek_steps(rng, g, h=1, raw_too=True):
@@ -197,7 +199,46 @@ def gen_c13(rng, i):
     return g.history("c13-%d" % i)
 
 
-GEN = {"C03": gen_c03, "C07": gen_c07, "C09": gen_c09, "C11": gen_c11, "C12": gen_c12, "C13": gen_c13}
+def gen_c16(rng, i):
+    """sequential residue: transactions that are refused (conflicts, also in the second table of an Addition), empty transactions,
+    compactions whose result is empty (everything deleted, everything expired), prefix / middle compactions, several handles"""
+    nh = rng.choice([1, 1, 2])
+    names = rng.sample(["a", "a/b", "b", "b/c", "c", "refs/heads/x"], rng.randint(2, 4))
+    g = S.HistGen(rng, names, nh=nh, logs=rng.random() < 0.5)
+    for h in range(1, nh + 1):
+        g.steps.append({"op": "open", "h": h})
+    live = []
+    for t in range(rng.randint(2, 9)):
+        h = rng.randint(1, nh)
+        x = rng.random()
+        if x < 0.25 and live:
+            # delete everything that is live: a later compaction from the bottom has an empty result
+            p = {"refs": [{"n": n, "v": ["d", "", ""]} for n in sorted(set(live))], "logs": []}
+            live = []
+            g.add(h=h, part=p)
+        elif x < 0.35:
+            g.add(h=h, part={"refs": [], "logs": []})
+        elif x < 0.5:
+            g.add(h=h, multi=True, nparts=2)
+        else:
+            p = g.part()
+            live += [r["n"] for r in p["refs"] if r["v"][0] != "d"]
+            g.add(h=h, part=p)
+        if nh > 1 and rng.random() < 0.5:
+            g.add(h=h, part=g.part())
+        y = rng.random()
+        if y < 0.3:
+            g.steps.append({"op": "compact", "h": h, "all": True})
+        elif y < 0.45:
+            g.steps.append({"op": "compact", "h": h, "first": 0, "last": rng.randint(1, 2)})
+        elif y < 0.55:
+            g.steps.append({"op": "compact", "h": h, "all": True, "expiry": {"time": rng.choice([0, 30]), "min": rng.choice([0, 99]), "max": 0}})
+        if rng.random() < 0.3:
+            g.steps.append({"op": "view", "h": h, "tag": "C16", "hasraw": False})
+    return g.history("c16-%d" % i)
+
+
+GEN = {"C16": gen_c16, "C03": gen_c03, "C07": gen_c07, "C09": gen_c09, "C11": gen_c11, "C12": gen_c12, "C13": gen_c13}
 
 
 def signature(check, trace, line):
@@ -224,7 +265,7 @@ def run(pid, tier):
         th = threading.Thread(target=exhaustive)
         th.start()
 
-        hists = [GEN[pid](rng, i) for i in range(VOL[tier])]
+        hists = [GEN[pid](rng, i) for i in range(VOLP.get(pid, VOL)[tier])]
         import storemc
         walks = storemc.walk_histories(pid, tier, sc, seed)
         hists += walks
@@ -277,7 +318,7 @@ def run(pid, tier):
                    samples=[{"history_steps": sample}, {"history_input": hists[0]["steps"][:4]}],
                    exhaustive=bool(exh) and all("No error has been found" in r["out"] for r in exh),
                    exhaustive_configs=[dict(name=r.get("name"), distinct=r["distinct"], generated=r["generated"], wall=round(r["wall"], 1)) for r in exh],
-                   histories_random=VOL[tier], histories_from_tlc=len(walks),
+                   histories_random=len(hists) - len(walks), histories_from_tlc=len(walks),
                    events_validated=vstats["events"], trace_states=vstats["states"], events_by_kind=dict(opcount),
                    checks=PROP_CHECKS[pid], other_check_failures=len(others), known_findings_seen=sorted(seen_known))
         C.write_evidence(pid, tier, LEVEL, cov, time.time() - t0, nviol,
